@@ -40,7 +40,7 @@ func vxSameTyps(a, b []types.Type) bool {
 }
 
 // vxRegister plays the calls of one package through SetFuncName the way newPackage does (stop at the first error).
-func vxRegister(k int) { vxRegisterU(k, vxUniverse()) }
+func vxRegister(k int) { vxRegisterU(k, vxUniverse(), false) }
 
 // vxUniverseOneWay: distinct type lists of which one is assignable to another but not conversely
 // (chan int -> <-chan int). The property's quantifier is over pairwise non-assignable types; this universe
@@ -52,7 +52,10 @@ func vxUniverseOneWay() [][]types.Type {
 	return [][]types.Type{{ch, i}, {rch, i}, {i, i}, {s, s}}
 }
 
-func vxRegisterU(k int, uni [][]types.Type) {
+// carveF18: exclude the histories of known finding F18 (universe vxUniverseOneWay only): a call over the more
+// specific list {chan int, int} (index 0) after one over the more general {<-chan int, int} (index 1), and
+// the two lists under one name (a conflict that SetFuncName takes for the same function).
+func vxRegisterU(k int, uni [][]types.Type, carveF18 bool) {
 	autoname := vx.Nondet[bool]("autoname")
 	dedup := vx.Nondet[bool]("dedup")
 	vxNames := vxNameList()
@@ -76,6 +79,10 @@ func vxRegisterU(k int, uni [][]types.Type) {
 		vx.Assume(ni[i] < 4 && ti[i] < 4)
 		vx.Assume(!isRes[ni[i]]) // a derive call is undefined, hence not a defined (reserved) name
 		for j := 0; j < i; j++ {
+			if carveF18 {
+				vx.Assume(!(ti[j] == 1 && ti[i] == 0))
+				vx.Assume(!(ti[j] == 0 && ti[i] == 1 && (ni[j] == ni[i] || got[j] == vxNames[ni[i]])))
+			}
 			if ni[j] == ni[i] && ti[j] != ti[i] {
 				conflict = true
 			}
@@ -133,7 +140,12 @@ func vxRegisterU(k int, uni [][]types.Type) {
 func VX_C11_register_K2() { vxRegister(2) }
 func VX_C11_register_K3() { vxRegister(3) }
 func VX_C11_register_K4() { vxRegister(4) }
-func VX_C11_oneway_K2()   { vxRegisterU(2, vxUniverseOneWay()) }
+
+// One-way assignable argument types (chan int -> <-chan int): just outside the property's quantifier
+// ("pairwise non-assignable"), inside its statement. The general-before-specific order is known finding F18.
+func VX_C11_oneway_K2()         { vxRegisterU(2, vxUniverseOneWay(), true) }
+func VX_C11_oneway_K3()         { vxRegisterU(3, vxUniverseOneWay(), true) }
+func VX_C11_oneway_K2__KF_F18() { vxRegisterU(2, vxUniverseOneWay(), false) }
 
 // ---------- C08: the name table does not depend on Go's map iteration order ----------
 
